@@ -2161,7 +2161,12 @@ def check(run):
                               {"kind": "scenario", "case": c, "scenario": scenario(c, 0, ".")})
                 continue
             if any("err=ok" not in l for l in cs["config"]):
-                run.mismatch("config", {"case": c}, [l for l in cs["config"] if "err=ok" not in l][:2], "accepted")
+                errs = [l for l in cs["config"] if "err=ok" not in l]
+                if errs[0].startswith("STEP "):
+                    run.violation("step:error", "a valid restraint history raised an error: %s" % errs[0][:200],
+                                  {"kind": "scenario", "case": c, "scenario": scenario(c, 0, ".")})
+                else:
+                    run.mismatch("config", {"case": c}, errs[:2], "accepted")
                 continue
             run.count(key, nontrivial(c, ds[k], cs["steps"]))
             ms = parse_model_line(mout[k]) if k < len(mout) else []
